@@ -101,11 +101,16 @@ def corpus():
         resp._content = b'{"a": 1, "b": [1, 2, 3]}'
         resp.headers['Content-Length'] = '24'
         resp.url = 'http://example.invalid/x'
+        resp._content_consumed = True          # the body has been read: the printer looks at headers and text
         add('requests-response', resp)
+        unread = requests.Response()
+        unread.status_code = 204
+        add('requests-response-unread', unread)
         resp2 = requests.Response()
         resp2.status_code = 404
         resp2._content = b'plain body'
         resp2.headers['Content-Type'] = 'text/plain'
+        resp2._content_consumed = True
         add('requests-response-2', resp2)
         add('requests-prepared', requests.Request('POST', 'http://example.invalid/p', headers={'X': '1'}, json={'k': [1]}).prepare())
         add('requests-request', requests.Request('GET', 'http://example.invalid/q', params={'a': 1}))
